@@ -26,6 +26,7 @@ def run(ctx):
             continue
         ctx.guard("C11", "vis", lambda: vis.representation_private(ctx, prog))
         ctx.guard("C11", "validator", lambda: normal.validator_content(ctx, prog))
+        ctx.guard("C11", "validator-outcomes", lambda: normal.validator_outcomes(ctx, prog))
         ctx.guard("C11", "writers", lambda: tail.classify_writers(ctx, prog))
         ctx.guard("C11", "tail-n", lambda: tail.normalize_in_place(ctx, prog))
         ctx.guard("C11", "tail-c", lambda: tail.compress_expand(ctx, prog))
@@ -36,6 +37,7 @@ def run(ctx):
         ctx.guard("C11", "typestate", lambda: typestate.clear_before_accumulate(ctx, prog))
         ctx.guard("C11", "lenmask", lambda: typestate.length_follows_masks(ctx, prog))
         ctx.guard("C11", "validcontent", lambda: typestate.valid_content(ctx, prog))
+        ctx.guard("C11", "sequences", lambda: typestate.sequences_exact(ctx, prog))
         ctx.guard("C11", "total-valid", lambda: panic.totality_of_validity(ctx, prog))
         ctx.guard("C11", "total-parse", lambda: parser.totality(ctx, prog))
         ctx.guard("C11", "fresh", lambda: parser.symbol_store(ctx, prog))
@@ -48,9 +50,10 @@ def run(ctx):
         ctx.guard("C11", "bs-conversions", lambda: blocksize.log_conversions(ctx, prog))
         ctx.guard("C11", "bs-tables", lambda: data.block_size_tables(ctx, prog))
         ctx.guard("C11", "const values", lambda: data.const_census(ctx, prog, data.CONST_SCOPES["C11"], floor=1))
-        ctx.guard("C11", "summaries", lambda: summary.check(ctx, prog, r'internals::(hash|hash_dual|compare)::(?!.*(Windows|compare_easy))', floor=50))
+        ctx.guard("C11", "element-asserts", lambda: validate.element_range_asserts(ctx, prog))
+        ctx.guard("C11", "summaries", lambda: summary.check(ctx, prog, r'internals::(hash|hash_dual|compare|utils)::(?!.*(Windows|compare_easy))', floor=50))
         ctx.guard("C11", "generic consts", lambda: summary.check_consts(ctx, prog, floor=13))
-        ctx.guard("C11", "path summaries", lambda: summary.check_paths(ctx, prog, r'internals::(hash|hash_dual|compare)::(?!.*(Windows|compare_easy))', floor=39))
+        ctx.guard("C11", "path summaries", lambda: summary.check_paths(ctx, prog, r'internals::(hash|hash_dual|compare|utils)::(?!.*(Windows|compare_easy))', floor=39))
     if ctx.tier == "thorough":
         ctx.cfg = "witness"
         ctx.guard("C11", "witness", lambda: witness.run(ctx, "witness", ["W1", "W2", "W3", "W4", "W6", "W7", "W8"]))
